@@ -3,7 +3,9 @@
 Spec: WfState.tla - named axes, natural join of upstream coordinate lists in input-field
 order, own splitter product, combiner closure over zipped axes, symbolic output terms.
 The workflow records (every 1-2 node workflow exhaustively in thorough, seeded samples of
-2-4 node workflows and the diamond family) are evaluated by TLC (WfState_Eval, mode M2);
+2-4 node workflows, the diamond and triangle families, and workflows whose nodes are
+nested workflows - inner chains and inner splits; workflows whose nodes split over upstream
+outputs or return lists of 0-2 elements, i.e. nodes with zero jobs) are evaluated by TLC (WfState_Eval, mode M2);
 every record is materialised as the source text of a real @workflow.define constructor and
 run with the debug worker; EVERY node's output must equal the term TLC computed.
 """
@@ -18,7 +20,17 @@ ERR_CLASSES = {  # class flag -> (known id, accepted exception prefixes = the as
     "cP": ("C03-partial-zip-combine-consumed", ("AttributeError", "PydraStateError: splitter has to be")),
     "cI": ("C03-own-split-inherited-combine", ("ValueError: max()",)),
     "cD": ("C03-diamond-multiplies", ("KeyError", "IndexError")),
+    "cN": ("C03-inner-split-below-upstream-state", ("KeyError", "IndexError", "AssertionError")),
 }
+
+
+def descendants(wf, roots):
+    """names of the given nodes and of every node fed (transitively) by them"""
+    d = set(roots)
+    for nd in wf["nodes"]:
+        if any(s["k"] == "node" and s["v"] in d for s in (nd["x"], nd["y"])):
+            d.add(nd["name"])
+    return d
 
 
 def all_outs(wf):
@@ -52,9 +64,9 @@ def judge(ctx, wf, e, o):
             ctx.violation("inner split over lists of different lengths was accepted", case=case, expected="rejected", observed=o)
         return
     exp = [wc.conv(x) for x in e["outs"]]
-    flags = {f for c in e["classes"] for f in ("cD", "cP", "cI") if c[f]}
+    flags = {f for c in e["classes"] for f in ("cD", "cP", "cI", "cN") if c.get(f)}
     if o["err"]:
-        for f in ("cP", "cI", "cD"):
+        for f in ("cP", "cI", "cD", "cN"):
             kid, prefixes = ERR_CLASSES[f]
             if f in flags and o["err"].startswith(prefixes):
                 if ctx.judge(False, f"valid workflow raises {o['err'][:60]}", case=case, expected=exp, observed="error",
@@ -65,6 +77,16 @@ def judge(ctx, wf, e, o):
         return
     if o["outs"] == exp:
         return
+    if "cN" in flags and wf["outs"] == [nd["name"] for nd in wf["nodes"]]:
+        # as-built signature of the inner-split finding: whatever goes wrong is confined to the nodes that split
+        # over the output of a node with a state, and to their descendants; every other node is right
+        sub = descendants(wf, [nd["name"] for nd, c in zip(wf["nodes"], e["classes"]) if c.get("cN")])
+        wrong = [n for n, ex_, ob_ in zip(wf["outs"], exp, o["outs"]) if ex_ != ob_]
+        if all(n in sub for n in wrong):
+            ctx.judge(False, f"node {wrong[0]}: outputs differ from the nested-loop reference", case=case,
+                      expected=exp[wf["outs"].index(wrong[0])], observed="confined-to-inner-split-subgraph",
+                      known_id="C03-inner-split-below-upstream-state", asbuilt="confined-to-inner-split-subgraph", node=wrong[0])
+            return
     for k, (ex_, ob_) in enumerate(zip(exp, o["outs"])):
         if ex_ != ob_:
             c = e["classes"][k]
@@ -125,6 +147,22 @@ def run(ctx):
     kw = [dict(w, spelling="kw") for w in ctx.rng.sample(wfs, min(len(wfs), 400 if ctx.thorough else 60))
           if any(nd["hassplit"] and nd["split"]["op"] == "f" for nd in w["nodes"])]
     wfs += kw
+    # nested-workflow nodes (WfState!JobTerm): inner chains and inner splits over a list-valued input
+    nest = [all_outs(wc.nested_sample(ctx.rng, 2 + i % 3)) for i in range(1800 if ctx.thorough else 220)]
+    nexp = wc.tlc_expected(ctx, nest, tag="nest")
+    # replayed: records whose inner split has a list to split over and that lie outside the recorded finding classes
+    # (their as-built signatures are stated for plain task nodes only)
+    nkeep = [w for w, e in zip(nest, nexp) if not e["badinner"] and not any(c["cD"] or c["cP"] or c["cI"] for c in e["classes"])]
+    ctx.extra["nested_records"] = {"sampled": len(nest), "replayed": len(nkeep)}
+    wfs += nkeep
+    # splits over UPSTREAM OUTPUTS, list-maker nodes (also of the empty list: nodes with zero jobs)
+    ups = [wc.upsplit_sample(ctx.rng, 2 + i % 3) for i in range(2400 if ctx.thorough else 300)] + wc.empty_split_family()
+    uexp = wc.tlc_expected(ctx, ups, tag="ups")
+    ukeep = [w for w, e in zip(ups, uexp) if not (e["badsplit"] or e["emptypartial"] or e["badinner"])
+             and not any(c["cD"] or c["cP"] or c["cI"] for c in e["classes"])]
+    ctx.extra["upstream_split_records"] = {"sampled": len(ups), "replayed": len(ukeep),
+                                           "inner_split_below_state": sum(1 for e in uexp if e["innerstate"])}
+    wfs += ukeep
     exp = wc.tlc_expected(ctx, wfs)
     obs = core.pmap(run_case, wfs, procs=12, chunksize=4)
     for w, e, o in zip(wfs, exp, obs):
@@ -134,7 +172,7 @@ def run(ctx):
         judge(ctx, w, e, o)
     ctx.exhaustive = False
     ctx.rule = ("workflow records: all 1-2 node workflows over the node menu (thorough) / seeded sample (quick), seeded samples of 3-4 node "
-                "workflows, the 4-node diamond family; every node output compared; non-trivial = >= 2 nodes and >= 2 jobs somewhere")
+                "workflows, the 4-node diamond family, the triangle family, seeded 2-4 node workflows with nested-workflow nodes; every node output compared; non-trivial = >= 2 nodes and >= 2 jobs somewhere")
     good = [(w, e) for w, e in zip(wfs, exp) if len(w["nodes"]) >= 3 and not e["rejected"]][:2]
     for w, e in good:
         ctx.sample({"workflow": wc.wf_source(w).split("def GenWf")[1], "expected_last_node": wc.conv(e["outs"][-1])})
